@@ -19,6 +19,13 @@ import nixwalk
 
 COUNTS = {}          # signature -> how often generated in this process (all histories of a run)
 CLOCK = [1000]
+
+
+def clock_of(n):
+    """coq/Nix/Observe.v clock_of: not monotone on purpose"""
+    return 900 + (n * 37) % 211
+
+
 nixio.util.now_int = lambda: CLOCK[0]
 nixio.util.util.now_int = lambda: CLOCK[0]
 
@@ -691,7 +698,7 @@ class Runner(object):
                 and op[1] < len(self.handles):
             tid = self.handles[op[1]][2]
         self.target_ids.append(tid)
-        CLOCK[0] = 1000 + self.step
+        CLOCK[0] = clock_of(1000 + self.step)
         self.step += 1
         ids = self.digest.known_ids
         try:
@@ -733,7 +740,7 @@ class Runner(object):
 
 # ---------------------------------------------------------------------------- generator
 
-NAMES = ["a", "b", "c", "x y", "äö", "data_arrays", "metadata", "N" * 40, "zz", "A",
+NAMES = ["a", "b", "c", "x y", "äö", "data_arrays", "metadata", "N" * 40, "zz", "A", "..", ".a", " ", "a\\b",
          "0123456789abcdef0123456789abcdef"]
 TYPES = ["t", "nix.x", "ü"]
 
@@ -760,7 +767,7 @@ class Gen(object):
             return self.rnd.choice(["a", "b", "c", "d"])
         if self.profile.get("uuid_names") and self.rnd.random() < 0.1:
             return "0123456789abcdef0123456789abcdef"
-        return self.rnd.choice(NAMES[:10])
+        return self.rnd.choice(NAMES[:-1])
 
     def payload(self):
         return [self.rnd.randint(-3, 9) for _ in range(self.rnd.randint(1, 4))]
@@ -876,6 +883,9 @@ class Gen(object):
         if t == "feature":
             ts = self.live(["Tag", "MultiTag"])
             das = self.live(["DataArray"])
+            dfs = self.live(["DataFrame"])
+            if dfs and rnd.random() < 0.35:
+                das = dfs                      # a data frame as feature data (refused for "tagged")
             if not ts or not das:
                 return None
             return ("create_feature", rnd.choice(ts), rnd.choice(das), rnd.choice(["tagged", "untagged", "indexed"]))
@@ -959,6 +969,9 @@ class Gen(object):
             if r == "RFeatureData":
                 owners = self.live(["Feature"])
                 das = self.live(["DataArray"])
+                dfs = self.live(["DataFrame"])
+                if dfs and rnd.random() < 0.4:
+                    das = dfs
                 if not owners or not das:
                     return None
                 return ("set_link", rnd.choice(owners), r, rnd.choice(das))
